@@ -93,6 +93,7 @@ def decode(data: bytes) -> dict:
     case["log_debug"] = d.p(0.12)
     case["port_str"] = case["transport"] == "tcp" and d.p(0.25)
     case["uni_name"] = d.p(0.25)          # the pool's name is any text
+    case["crlf"] = d.p(0.2)
     case["busy"] = d.p(0.35) and not case["cli"]       # the pool has two running tasks all along: clients come and go around them
     if d.p(0.3):
         # keyword arguments the server passes through to asyncio.start_server / start_unix_server
@@ -144,7 +145,7 @@ class C19Engine(Engine):
             del c["events"][i]
             c["stop_at"] = min(c["stop_at"], len(c["events"]))
             out.append(c)
-        for key in ("cli", "dual", "restart", "restart_early", "busy", "log_debug", "port_str", "uni_name"):
+        for key in ("cli", "dual", "restart", "restart_early", "busy", "log_debug", "port_str", "uni_name", "crlf"):
             if case.get(key):
                 c = copy.deepcopy(case)
                 c[key] = False
@@ -283,7 +284,7 @@ class C19Engine(Engine):
                 if line == "num-running":
                     want = str(pool.num_running)
                 try:
-                    c.w.write(line.encode() + b"\n")  # type: ignore[union-attr]
+                    c.w.write(line.encode() + (b"\r\n" if case.get("crlf") else b"\n"))  # type: ignore[union-attr]   (some clients end lines with CR LF)
                     await c.w.drain()  # type: ignore[union-attr]
                     reply = await asyncio.wait_for(c.r.readline(), BOUND)  # type: ignore[union-attr]
                 except asyncio.TimeoutError:
